@@ -42,6 +42,8 @@ type propCfg struct {
 	rule      string
 	technique string
 	race      bool
+	levelText string
+	levelNote string
 }
 
 var props = map[string]propCfg{}
@@ -618,6 +620,10 @@ func main() {
 		os.Exit(replay(os.Args[2]))
 	case "selftest-determinism":
 		os.Exit(selftestDeterminism(os.Args[2:]))
+	case "manifest":
+		os.Exit(writeManifest())
+	case "warm":
+		os.Exit(warm())
 	default:
 		die("unknown command %s", os.Args[1])
 	}
